@@ -44,7 +44,7 @@ func (e *Exec) nondetBytes(name string, cp int, orNil bool, isStr bool) *SliceV 
 		isNil = tb.Sym(name+"_isnil", 0)
 		e.addPC(tb.Implies(isNil, tb.Eq(l, tb.BV(0, 64))))
 	}
-	e.addNondet(NondetRec{Name: name, Kind: "bytes", Len: l, Bytes: a.b, IsNil: isNil})
+	e.addNondet(NondetRec{Name: name, Kind: "bytes", Len: l, Bytes: append([]*Term(nil), a.b...), IsNil: isNil})
 	return &SliceV{a: a, len: l, gocap: l, isStr: isStr, isNil: isNil}
 }
 
@@ -116,15 +116,39 @@ func (e *Exec) rtIntrinsic(name string, fn *ssa.Function, args []Value) (Value, 
 		}
 		return e.nilErr(), true
 	case "NondetAddrStr":
+		// core: up to 5 printable non-space ASCII bytes, validity = uninterpreted predicate of the core;
+		// optionally preceded by one space (then invalid)
 		n := str(0)
-		sv := e.nondetBytes(n, 6, false, true)
-		sp := e.packBytes(sv, strCap)
+		core := e.nondetBytes(n, 5, false, true)
+		for i := 0; i < 5; i++ {
+			b := e.byteAt(core, i)
+			e.addPC(tb.Implies(tb.Ult(tb.BV(int64(i), 64), core.len), tb.And(tb.Ule(tb.BV(0x21, 8), b), tb.Ule(b, tb.BV(0x7e, 8)))))
+		}
+		pad := tb.Sym(n+"_pad", 8)
+		e.addPC(tb.UleRaw(pad, tb.BV(1, 8)))
+		e.addNondet(NondetRec{Name: n + "_pad", Kind: "uint", T: pad})
+		isPad := tb.Eq(pad, tb.BV(1, 8))
+		a := &Alloc{}
+		for i := 0; i < 6; i++ {
+			var shifted *Term
+			if i == 0 {
+				shifted = tb.BV(' ', 8)
+			} else {
+				shifted = e.byteAt(core, i-1)
+			}
+			a.b = append(a.b, tb.Ite(isPad, shifted, e.byteAt(core, i)))
+		}
+		ln := tb.Add(core.len, tb.ZExt(pad, 64))
+		sv := (&SliceV{a: a, len: ln, gocap: ln, isStr: true, isNil: tb.ff}).withMax(6)
+		cp, sp := e.packBytes(core, strCap), e.packBytes(sv, strCap)
 		if e.abstractAddr == nil {
 			e.abstractAddr = map[int]bool{}
 		}
-		e.abstractAddr[sp.id] = true
-		valid := tb.UF("b32ok", 0, sp)
-		e.addNondet(NondetRec{Name: n + "_valid", Kind: "uint", T: tb.Ite(valid, tb.BV(1, 8), tb.BV(0, 8))})
+		e.abstractAddr[cp.id], e.abstractAddr[sp.id] = true, true
+		okCore := tb.UF("b32ok", 0, cp)
+		valid := tb.And(tb.Not(isPad), okCore)
+		e.addPC(tb.Eq(tb.UF("b32ok", 0, sp), valid))
+		e.addNondet(NondetRec{Name: n + "_valid", Kind: "uint", T: tb.Ite(okCore, tb.BV(1, 8), tb.BV(0, 8))})
 		return TupleV{sv, valid}, true
 	case "NondetAddr":
 		// class 0: canonical bech32 of 20 arbitrary bytes; 1: upper-case spelling; 2: a short junk
